@@ -10,7 +10,7 @@ use lightmotif::seq::StripedSequence;
 use proptest::prelude::*;
 use serde::{Deserialize, Serialize};
 
-use crate::c08::{embed_word, Embed, WRAP_CLASS};
+use crate::c08::{any_scored_cell_overflows, embed_word, is_u8_add_overflow, overflow_checked_build, Embed, WRAP_CLASS};
 use crate::engine::*;
 use crate::gen::*;
 
@@ -255,7 +255,9 @@ fn setup(case: &Case) -> Setup {
     let thr = resolve_thr(&case.thr, &r32, min, max);
     let dm = pssm.to_discrete();
     let n = r32.len();
-    let u8_overflow = (0..n).any(|i| (0..m).map(|j| dm.matrix()[j][idx[i + j] as usize] as u32).sum::<u32>() > 255);
+    // (a build with overflow checks panics on ANY scored cell above 255, padding positions included; a build
+    // without them only loses hits at valid positions)
+    let u8_overflow = (0..n).any(|i| (0..m).map(|j| dm.matrix()[j][idx[i + j] as usize] as u32).sum::<u32>() > 255) || (overflow_checked_build() && any_scored_cell_overflows(&dm, &striped));
     Setup { idx, m, pssm, striped, rows, r32, thr, u8_overflow }
 }
 
@@ -291,6 +293,26 @@ fn classify(case: &Case, s: &Setup, expected: usize, info: &mut CaseInfo) {
     }
 }
 
+
+/// In a build with arithmetic overflow checks the scalar 8-bit kernel of the Generic / Sse2 arms panics on a
+/// window whose cells sum above 255 where a release build wraps around and loses the hit: the same root cause
+/// (open finding KF06), reported under the same signature as the lost hit.
+fn overflow_checked(case: &Case, kind: &str, f: impl FnOnce() -> Verdict) -> Verdict {
+    match catch_inner(f) {
+        Ok(v) => v,
+        Err((loc, msg)) => {
+            let s = setup(case);
+            if is_u8_add_overflow(&loc, &msg) && case.arm != Arm::Avx2 && s.u8_overflow {
+                Verdict::Fail(Failure::new(
+                    format!("{}:{}:{}", arm_sig(case.arm), kind, WRAP_CLASS),
+                    format!("the scalar 8-bit kernel panicked at {}: {} (overflow-checked build; a build without the checks wraps around and loses the hit)", loc, msg),
+                ))
+            } else {
+                Verdict::Fail(Failure::new(panic_sig(&loc, &msg), format!("panicked at {}: {}", loc, msg)))
+            }
+        }
+    }
+}
 
 /// Sequences of more than 65536 striped rows (16-bit row / block counters): a few fixed cases.
 fn long_cases() -> Vec<Case> {
@@ -340,6 +362,12 @@ impl Sub for Exhaust {
         long_cases()
     }
     fn check(&self, case: &Case, cx: &Cx) -> Verdict {
+        overflow_checked(case, "missing-hit", || self.check_inner(case, cx))
+    }
+}
+
+impl Exhaust {
+    fn check_inner(&self, case: &Case, cx: &Cx) -> Verdict {
         if case.mat.m() == 0 {
             return Verdict::Pass(CaseInfo::new());
         }
@@ -577,6 +605,12 @@ impl Sub for Best {
         long_cases()
     }
     fn check(&self, case: &Case, cx: &Cx) -> Verdict {
+        overflow_checked(case, "not-maximal", || self.check_inner(case, cx))
+    }
+}
+
+impl Best {
+    fn check_inner(&self, case: &Case, cx: &Cx) -> Verdict {
         if case.mat.m() == 0 {
             return Verdict::Pass(CaseInfo::new());
         }
